@@ -1111,15 +1111,35 @@ func (c *Ctx) checkRounding(fn *ssa.Function, v ssa.Value) string {
 func (c *Ctx) quarterTicksField() string {
 	name := "quoaterNoteTicks"
 	if nw := c.fn("midix", "NewWriter"); nw != nil {
+		var cands []string
 		allInstrs(nw, func(in ssa.Instruction) {
 			if st, ok := in.(*ssa.Store); ok {
 				if n, _, ok := fieldName(st.Addr); ok {
 					if call, isCall := st.Val.(*ssa.Call); isCall && strings.HasSuffix(calleeName(&call.Call), "smf.MetricTicks.Ticks4th") {
-						name = n
+						cands = append(cands, n)
 					}
 				}
 			}
 		})
+		// ... and nothing else ever writes it (a field that is recomputed later - from the meter, say - is not the clock's)
+		for _, cand := range cands {
+			writers := 0
+			for _, f := range c.srcFuncs() {
+				if pkgOfFunc(f) != pkgOfFunc(nw) {
+					continue
+				}
+				allInstrs(f, func(in ssa.Instruction) {
+					if st, ok := in.(*ssa.Store); ok {
+						if n, _, ok := fieldName(st.Addr); ok && n == cand && strings.HasSuffix(typeName(st.Val.Type()), "uint32") {
+							writers++
+						}
+					}
+				})
+			}
+			if writers == 1 {
+				name = cand
+			}
+		}
 	}
 	return name
 }
@@ -1659,6 +1679,11 @@ func ruleOpMap(c *Ctx) {
 				}
 				if !flows {
 					problem = "the message added is not the one constructed"
+				}
+				// on every path: an op that adds nothing for some values loses the event and the time it carries (a note-on
+				// without its note-off, a delta that is never spent)
+				if problem == "" && len(pathConds(addCall.Block())) > 0 {
+					problem = "the message is added only under a condition: for some values the event - and the time it carries - is dropped (a note struck and never released when the two ops disagree)"
 				}
 			}
 		}
